@@ -6,7 +6,7 @@ package c16
 //	         untyped nil, also for channels of pointers, slices, maps), and close on operands that are
 //	         not an open channel (twice, through a pointer, nil): an error, never a crash
 //	goargs   `go` calls whose arguments have side effects (a receive from a jobs channel, a host
-//	         counter): evaluated exactly once, before the goroutine starts; and many goroutines alive at
+//	         counter) or are list elements the caller assigns right afterwards: evaluated exactly once, before the goroutine starts; and many goroutines alive at
 //	         once (300 parked on a gate): every one of them runs concurrently with its caller
 
 import (
@@ -146,7 +146,7 @@ type GoArgsCase struct {
 
 func genGoArgs(t *rapid.T) GoArgsCase {
 	c := GoArgsCase{N: rapid.IntRange(4, 40).Draw(t, "n"), Params: rapid.IntRange(1, 5).Draw(t, "params"),
-		Form: rapid.SampledFrom([]string{"recv", "recv", "counter", "counter", "many"}).Draw(t, "form"), Procs: rapid.SampledFrom([]int{1, 2, 16}).Draw(t, "procs")}
+		Form: rapid.SampledFrom([]string{"recv", "recv", "counter", "counter", "many", "elem", "elem"}).Draw(t, "form"), Procs: rapid.SampledFrom([]int{1, 2, 16}).Draw(t, "procs")}
 	if c.Form == "many" {
 		c.N = rapid.SampledFrom([]int{257, 260, 300, 320}).Draw(t, "many")
 	}
@@ -175,6 +175,13 @@ func oracleGoArgs(c GoArgsCase, o *h.Obs) *h.Fail {
 		}
 		fmt.Fprintf(&b, "res = make(chan interface, %d)\n", c.N)
 		arg := "next()"
+		after := ""
+		if c.Form == "elem" {
+			// the argument is a list element the caller assigns right after the go statement: the worker gets the
+			// value the element had when the go statement ran
+			fmt.Fprintf(&b, "items = []\nfor i = 0; i < %d; i++ {\n items += [i]\n}\n", c.N)
+			arg, after = "items[i]", "\n items[i] = -1"
+		}
 		if c.Form == "recv" {
 			fmt.Fprintf(&b, "jobs = make(chan int64, %d)\nfor i = 0; i < %d; i++ {\n jobs <- i\n}\nclose(jobs)\n", c.N, c.N)
 			arg = "<-jobs"
@@ -183,6 +190,7 @@ func oracleGoArgs(c GoArgsCase, o *h.Obs) *h.Fail {
 		if c.Params == 1 {
 			call = "go w(" + arg + ")"
 		}
+		call += after
 		fmt.Fprintf(&b, "for i = 0; i < %d; i++ {\n %s\n}\nl = []\nfor i = 0; i < %d; i++ {\n l += [<-res]\n}\nl\n", c.N, call, c.N)
 	}
 	src := b.String()
